@@ -114,6 +114,8 @@ type Interp struct {
 	filterSeq   int
 	peekSeq     int
 	pemSeq      int
+	issuedLeaves, issuedSigners int
+	clockEpoch int
 	inCond      bool
 	chanSeq     int
 	loopInit    map[string]Value // "<function>:<variable>" -> value the loop variable starts from
